@@ -10,7 +10,7 @@ import "os"
 var c17CoreControls = map[string]bool{
 	"code-decode-5": true, "store-alias": true, "finally-no-fin-on-error": true, "prec-swap-4-5": true,
 	"reset-per-input": true, "record-null": true,
-	"input-wrong-class": true, "input-decode-stop": true,
+	"input-wrong-class": true, "input-decode-stop": true, "input-refeed-arm": true, "args-pair-eq-accepted": true,
 	"args-error-code-3": true, "rawfile-swallowed": true,
 	"args-split-at-every-eq": true, "args-value-reparsed": true,
 	"flag-collision": true, "mode-files-include-expr": true,
@@ -59,14 +59,18 @@ func init() {
 	add("input-no-pop", "C17.inputs", ini, "    | _input_filenames($t)\n", "", "_input:pop")
 	add("input-pop-head", "C17.inputs", ini, "    | _input_filenames($t)\n", "    | _input_filenames([$h])\n", "_input:pop")
 	add("input-wrong-class", "C17.inputs", ini, "        | _input_io_errors(. += {($name): $err}) as $_", "        | _input_decode_errors(. += {($name): $err}) as $_", "_input:open:record")
-	add("input-decode-stop", "C17.inputs", ini, "        | (_error_str([$name]) | printerrln)\n        , _input($opts; f)\n        )\n    );", "        | (_error_str([$name]) | printerrln)\n        )\n    );", "_input:decode:continue")
-	add("input-open-reraise", "C17.inputs", ini, "        | $err\n        | (_error_str([$name]) | printerrln)\n        , _input($opts; f)", "        | $err\n        | (_error_str([$name]) | printerrln)\n        , error", "_input:open:continue")
+	add("input-decode-stop", "C17.inputs", ini, "            | (_error_str([$name]) | printerrln)\n            , _input($opts; f)\n            )", "            | (_error_str([$name]) | printerrln)\n            )", "_input:decode:continue")
+	add("input-open-reraise", "C17.inputs", ini, "        , {next: _input($opts; f)}", "        , error", "_input:open:continue")
 	add("input-break-token", "C17.inputs", ini, "    | if length == 0 then error(\"break\") end\n    | [.[0], .[1:]]", "    | if length == 0 then error(\"done\") end\n    | [.[0], .[1:]]", "_repeat_break:token")
 	add("input-open-name", "C17.inputs", ini, "    | $h\n    | try\n        # null input", "    | $name\n    | try\n        # null input", "_input:open-operand")
-	add("input-one-try", "C17.inputs", ini, "        ( open\n        | _input_filename($name) as $_\n        | .\n        )", "        ( open\n        | _input_filename($name) as $_\n        | f\n        )", "_input:separate-tries")
+	add("input-one-try", "C17.inputs", ini, "        | {opened: .}\n", "        | f\n        | {opened: .}\n", "_input:separate-tries")
 	add("input-swapped-modes", "C17.inputs", ini, "if $opts.string_input then _input_string($opts)\n    else _input($opts; decode)", "if $opts.string_input then _input($opts; decode)\n    else _input_string($opts)", "input:dispatch")
 	add("inputs-single", "C17.inputs", ini, "def inputs: _repeat_break(input);", "def inputs: input;", "inputs")
-	add("input-no-print", "C17.inputs", ini, "        | $err\n        | (_error_str([$name]) | printerrln)\n        , _input($opts; f)", "        | $err\n        | (_error_str([$name]) | empty)\n        , _input($opts; f)", "_input:open:print")
+	add("input-no-print", "C17.inputs", ini, "        | $err\n        | (_error_str([$name]) | printerrln)\n        # result", "        | $err\n        | (_error_str([$name]) | empty)\n        # result", "_input:open:print")
+	add("input-refeed-untagged", "C17.inputs", ini, "        , {next: _input($opts; f)}\n        )\n    | if has(\"next\") then .next\n      else\n        ( .opened\n", "        , {opened: _input($opts; f)}\n        )\n    | if has(\"next\") then .next\n      else\n        ( .opened\n", "_input:open:no-refeed")
+	add("input-refeed-arm", "C17.inputs", ini, "    | if has(\"next\") then .next\n", "    | if has(\"next\") then .next | f\n", "_input:open:no-refeed")
+	add("input-decode-whole-tag", "C17.inputs", ini, "        ( .opened\n        | try f\n", "        ( .\n        | try f\n", "_input:decode-operand")
+	add("input-arms-swapped", "C17.inputs", ini, "    | if has(\"next\") then .next\n", "    | if has(\"opened\") then .next\n", "_input:open:no-refeed")
 	// handlers
 	add("args-error-code-3", "C17.handlers", ini, "      catch _fatal_error(_exit_code_args_error)", "      catch _fatal_error(_exit_code_compile_error)", "halt:_main/0")
 	add("args-include-argv0", "C17.handlers", ini, "try _args_parse($args[1:]; _opt_cli_opts)", "try _args_parse($args[0:]; _opt_cli_opts)", "main:args-parse")
@@ -95,6 +99,7 @@ func init() {
 	add("args-no-aliases", "C17.args", arg, "          (.value.aliases // [])", "          []", "flagmap:fields")
 	add("args-combined-drop", "C17.args", arg, `_parse_without_arg((["-"+$args[0][2:]]+$args[1:]); $optname)`, `_parse_without_arg((["-"+$args[0][3:]]+$args[1:]); $optname)`, "combined-short")
 	add("args-bool-false", "C17.args", arg, "_parse($new_args; $flagmap; ($r | .parsed[$optname] = true));", "_parse($new_args; $flagmap; ($r | .parsed[$optname] = false));", "without-arg")
+	add("args-pair-eq-accepted", "C17.args", arg, "if $assign_i then error(\"\\($arg): needs two argument\")\n              elif ($args | length) > 2 then", "if ($args | length) > 2 then", "pair")
 	// flags
 	add("flag-collision", "C17.flags", opt, "      { short: \"-C\"\n", "      { short: \"-c\"\n", "flag:-c:unique")
 	add("flag-arity", "C17.flags", opt, "      , long: \"--include-path\"\n      , description: \"Include search path\"\n      , array: \"PATH\"", "      , long: \"--include-path\"\n      , description: \"Include search path\"\n      , bool: true", "compat:-L")
